@@ -8,12 +8,12 @@ ROOT = os.path.dirname(os.path.dirname(os.path.abspath(__file__)))
 CHECKS = {
  "C12": ("model_checking",
          "explicit-state BFS (stateright) over the real ErrorQueue implementations in lock-step with a FIFO reference model",
-         "Every reachable state of ArrayVec<Error,N> (every N in the stated range) and of Vec<Error> (length-bounded) under push/pop/clear over a 3-5 error alphabet is visited; each transition executes the real queue code and compares pop result, length, emptiness and full drained content with a FIFO model. Complete inside the bound; the queue code does not branch on error values, so the alphabet is representative.",
+         "Every reachable state of ArrayVec<Error,N> (every N in the stated range) and of Vec<Error> (length-bounded) under push/pop/clear over a 3-5 error alphabet is visited; each transition executes the real queue code and compares pop result, length, emptiness and full drained content with a FIFO model. Complete inside the bound; the queue code does not branch on error values, so the alphabet is representative. Plus two deterministic deep histories (1200 steps, growth past 256 entries, drain, clear, reuse) outside the BFS bound.",
          "Trusted: the 15-line FIFO reference, stateright's BFS/dedup, Clone/Hash of the queue value. Capacities above the bound and pushes of other error values are not explored.",
          "DESIGN.md section 5 (C12)"),
  "C13": ("model_checking",
          "explicit-state BFS (stateright) over the documented SCPI device and full mandated command tree, every transition a real Node::run compared with a reference model of queue + ESR",
-         "All reachable states (error queue content up to a length bound, ESR, ESE, SRE, status registers) of the documented device under an alphabet of whole program messages: valid commands, one failing message per error kind and raising mechanism, *OPC, SYST:ERR[:NEXT]?/COUNt?/ALL?, *ESR?, and multi-unit messages that mix failures and queries. Each transition runs the real parser, dispatcher, handlers and device glue and compares return value, response bytes, queue content and ESR with the model. Complete within the alphabet and bound; histories of any length are covered through the fixpoint.",
+         "All reachable states (error queue content up to a length bound, ESR, ESE, SRE, status registers) of the documented device under an alphabet of whole program messages: valid commands, one failing message per error kind and raising mechanism, *OPC, SYST:ERR[:NEXT]?/COUNt?/ALL?, *ESR?, and multi-unit messages that mix failures and queries. Each transition runs the real parser, dispatcher, handlers and device glue and compares return value, response bytes, queue content and ESR with the model. Complete within the alphabet and bound; histories of any length are covered through the fixpoint. Plus three deterministic deep lock-step histories outside the BFS bound (300 unread items with COUNt? at 255/256/257, interleaved *OPC/reads, class-boundary error numbers).",
          "Trusted: the reference model (scpimodel.rs, ~250 lines, written from SCPI-99 21.8 / IEEE 488.2 11.5), the binding table message-text -> semantic action, stateright. Queue length is bounded for the growable queue; error kinds outside the alphabet are not explored.",
          "DESIGN.md section 5 (C13)"),
  "C15": ("model_checking",
@@ -23,17 +23,17 @@ CHECKS = {
          "DESIGN.md section 5 (C15)"),
  "C16": ("model_checking",
          "explicit-state BFS (stateright), three slices over the documented device, every transition a real Node::run compared with an IEEE 488.2 section 11 reference model",
-         "S1: all reachable (ESR, ESE, SRE, queue, self-test) states under *ESE/*SRE values covering every bit, *ESR?, *STB? with MAV both ways, *CLS, *OPC, *OPC?, *TST?, *RST, *WAI, a failing message per ESR class, SYST:ERR? and multi-unit combinations. S2: OPER and QUES summary bits against SRE and *STB?. S3: every value 0..255 plus out-of-range, rounded and mistyped values written to *ESE and *SRE and read back. Response, return value and every device register are compared after each message.",
+         "S1: all reachable (ESR, ESE, SRE, queue, self-test) states under *ESE/*SRE values covering every bit, *ESR?, *STB? with MAV both ways, *CLS, *OPC, *OPC?, *TST?, *RST, *WAI, a failing message per ESR class, SYST:ERR? and multi-unit combinations. S2: OPER and QUES summary bits against SRE and *STB?. S3: every value 0..255 plus out-of-range, rounded and mistyped values written to *ESE and *SRE and read back. Response, return value and every device register are compared after each message. S2 lets the OPER register range over the subsets of {bit 0, bit 15}.",
          "Trusted: the reference model of the status byte (summary = event & enable per IEEE 488.2 11.4.3; MSS over all other bits incl. MAV; *CLS clears ESR, event registers and error queue), the binding table, stateright. Queue bound 1-2.",
          "DESIGN.md section 5 (C16)"),
  "C02": ("model_checking",
          "per-tree BFS over the reference resolver's header-level state graph; every (state, unit) transition replayed on the real Node::run (witness;unit) and compared; plus all 2-/3-unit messages and history runs",
-         "For every tree of a bounded family (all unambiguous trees up to N nodes over a name pool with suffixed siblings, default leaves/branches, anonymous default leaf, root-only common commands) the reachable header levels and every transition under an alphabet of absolute/relative/common headers in four spellings, event and query form, are enumerated; each transition is validated against the implementation by running the witness message and comparing the handler-invocation log (which handler, which form) and the return value (-113 without invocation). All 2-unit (and, thorough, 3-unit) messages are also run directly, and units are re-run after failing/deep earlier messages.",
+         "For every tree of a bounded family (all unambiguous trees up to N nodes over a name pool with suffixed siblings, default leaves/branches, anonymous default leaf, root-only common commands) the reachable header levels and every transition under an alphabet of absolute/relative/common headers in four spellings, event and query form, are enumerated; each transition is validated against the implementation by running the witness message and comparing the handler-invocation log (which handler, which form) and the return value (-113 without invocation). All 2-unit (and, thorough, 3-unit) messages are also run directly, and units are re-run after failing/deep earlier messages. Unit alphabets also contain spellings whose numeric suffix is congruent to a defined one modulo 2^8 / 2^16.",
          "Trusted: the reference resolver (refmodel/resolver.rs, self-checked against the repo's tree_traversal.csv), the reference mnemonic matcher of C03, the tree-family generator. Trees larger than the bound, more than 3 children per branch and handlers with parameters are outside this check.",
          "DESIGN.md section 5 (C02)"),
  "C03": ("exploration",
          "exhaustive enumeration of (definition, candidate) pairs against an independent three-valued matcher",
-         "Every definition of SCPI shape over {A,B}/{a,b} with suffixes {none,1,2,12,01,0} x every candidate string up to length 5/6 over {a,A,b,B,1,2,0,_}, plus 62 real SCPI mnemonics (incl. 12-character ones) x their edit/case/suffix neighbourhood, through mnemonic_match, Token::match_program_header and mnemonic_compare. Complete in the stated space; the matcher scans bytes uniformly so two letters per case class are representative.",
+         "Every definition of SCPI shape over {A,B}/{a,b} with suffixes {none,1,2,12,01,0} x every candidate string up to length 5/6 over {a,A,b,B,1,2,0,_}, plus 62 real SCPI mnemonics (incl. 12-character ones) x their edit/case/suffix neighbourhood, through mnemonic_match, Token::match_program_header and mnemonic_compare. Complete in the stated space; the matcher scans bytes uniformly so two letters per case class are representative. Definitions with 9-12 digit suffixes and candidates whose suffix wraps modulo 2^8/2^16/2^32/2^64 or differs only in leading/trailing digits are included as a directed family.",
          "Trusted: the 40-line reference matcher (self-checked on the repo's own test expectations). Suffixes with leading zeros are not judged (property does not pin them).",
          "DESIGN.md section 5 (C03)"),
  "C14": ("exploration",
@@ -43,7 +43,7 @@ CHECKS = {
          "DESIGN.md section 5 (C14)"),
  "C05": ("fault_enumeration",
          "exhaustive enumeration of messages of k units with every failure kind at every position, plus formatter faults at every write (ArrayVec capacity sweep), against a reference executor",
-         "All messages of 1..k units over 12 unit kinds (2 ok kinds per form, handler-returned errors from event and from query after a partial write, -108, -109, -104, -222, -113, lexical error in data, lexical error in header) on a flat and a nested-default tree; for every successful message every buffer capacity below the response length. Compared: the exact handler-invocation log (order, multiplicity, nothing after the failing unit), the returned error (code and extended text) and the Device::handle_error log (exactly that error once; never on success).",
+         "All messages of 1..k units over 12 unit kinds (2 ok kinds per form, handler-returned errors from event and from query after a partial write, -108, -109, -104, -222, -113, lexical error in data, lexical error in header) on a flat and a nested-default tree; for every successful message every buffer capacity below the response length. Compared: the exact handler-invocation log (order, multiplicity, nothing after the failing unit), the returned error (code and extended text) and the Device::handle_error log (exactly that error once; never on success). Directed additions: handler-returned errors with codes 0, -42, +5, and a string response with an embedded quote behind a long segment.",
          "Trusted: the reference executor (expect/judge in c05.rs), the reference response layout used to locate the failing unit under a capacity fault. Formatter faults other than exhaustion cannot be injected from outside the crate (ResponseUnit has private fields).",
          "DESIGN.md section 5 (C05)"),
  "C06": ("exploration",
@@ -53,7 +53,7 @@ CHECKS = {
          "DESIGN.md section 5 (C06)"),
  "C10": ("exploration",
          "exhaustive enumeration of successful messages up to k units x separators x endings, byte-exact comparison with reference framing on Vec and ArrayVec buffers",
-         "Every sequence of up to 3/4 units over 13 unit kinds (events, queries with 1-5 data of all types, one- and two-level response headers, relative/common headers) x 3 unit-separator spellings x 8 message endings; the output buffer must equal the hand-written unit texts joined by `;` with exactly one NL iff there is output.",
+         "Every sequence of up to 3/4 units over 13 unit kinds (events, queries with 1-5 data of all types, one- and two-level response headers, relative/common headers) x 3 unit-separator spellings x 8 message endings; the output buffer must equal the hand-written unit texts joined by `;` with exactly one NL iff there is output. Directed additions: a unit with 300 data elements, data ending in `;` or NL, long quoted strings and error items.",
          "Trusted: the hand-written expected response text per unit kind. How an empty response unit is framed is not judged.",
          "DESIGN.md section 5 (C10)"),
  "C11": ("fault_enumeration",
@@ -63,12 +63,12 @@ CHECKS = {
          "DESIGN.md section 5 (C11)"),
  "C04": ("exploration",
          "exhaustive enumeration of all strings up to length n over one byte per lexical class, contextual continuations, grammar derivations and their single-point corruptions, judged by an independent three-valued IEEE 488.2 recogniser",
-         "Every string up to length 5 (quick) / 6 (thorough) over 28 class-representative bytes, every continuation up to length 4/5 behind 13 prefixes that put each data reader at offset 0, ~20k grammar derivations with all white-space placements and ~1M single-point corruptions. Well-formed inputs must be tokenized into exactly the 488.2 elements with exact byte ranges (and, where the headers exist, run successfully with handlers seeing exactly those data elements); inputs in a listed violation class must be refused with a command error by the tokenizer (lexical classes) or by Node::run (structural classes); everything else is not judged.",
+         "Every string up to length 5 (quick) / 6 (thorough) over 28 class-representative bytes, every continuation up to length 4/5 behind 13 prefixes that put each data reader at offset 0, ~20k grammar derivations with all white-space placements and ~1M single-point corruptions. Well-formed inputs must be tokenized into exactly the 488.2 elements with exact byte ranges (and, where the headers exist, run successfully with handlers seeing exactly those data elements); inputs in a listed violation class must be refused with a command error by the tokenizer (lexical classes) or by Node::run (structural classes); everything else is not judged. Plus directed families: elements of 32 lengths from 11 to 65549 bytes in every position, and every byte value 0..255 at every position of 8 well-formed messages.",
          "Trusted: refmodel/lex488.rs (~450 lines from 488.2 7.3-7.7, self-checked on accept/reject/unspecified tables). White space representatives SP/TAB; inputs the standard or the property leave open are classified unspecified (counted in the evidence).",
          "DESIGN.md section 5 (C04)"),
  "C01": ("exploration",
          "exhaustive enumeration of all strings up to length n over one byte per lexical class x tree shapes x handler plans (incl. every typed conversion of every pulled token), contextual continuations and direct list-expression sweeps, under both build profiles, with per-case panic capture, watchdog and crash journal",
-         "Every string up to length 4 (quick) / 5 (thorough) over 28 class-representative bytes against 3 tree shapes x 5 handler plans, every continuation up to length 4/5 behind 15 prefixes that place each data reader (block, string, expression, channel list, non-decimal, suffix) at offset 0, and every string up to length 5/7 over the list alphabet through the channel-list and numeric-list iterators, spec iteration and all six tuple conversions. Each case must return normally with Ok or a SCPI error other than -300 'Internal parser error'; panics are caught per case, non-termination by a watchdog, process death by the ./check wrapper from a per-chunk journal. Run under release and under debug-assertions + overflow-checks.",
+         "Every string up to length 4 (quick) / 5 (thorough) over 28 class-representative bytes against 3 tree shapes x 5 handler plans, every continuation up to length 4/5 behind 15 prefixes that place each data reader (block, string, expression, channel list, non-decimal, suffix) at offset 0, and every string up to length 5/7 over the list alphabet through the channel-list and numeric-list iterators, spec iteration and all six tuple conversions. Each case must return normally with Ok or a SCPI error other than -300 'Internal parser error'; panics are caught per case, non-termination by a watchdog, process death by the ./check wrapper from a per-chunk journal. Run under release and under debug-assertions + overflow-checks. Plus directed inputs beyond the length bound: every literal of the C07 grammar as a parameter, elements of 32 lengths from 11 to 65549 bytes, every byte value at every position of 8 well-formed messages, list/unit/header chains of up to 65536 items.",
          "Trusted: catch_unwind/watchdog machinery; the class-representative alphabet (readers branch on class membership and on block length digits 0/1/9). Strings longer than the bound are covered only behind the listed prefixes.",
          "DESIGN.md section 5 (C01)"),
  "C07": ("exploration",
@@ -83,7 +83,7 @@ CHECKS = {
          "DESIGN.md section 5 (C08)"),
  "C09": ("exploration",
          "exhaustive / structured enumeration of formattable values, each formatted by the real ResponseData impl, decoded by an independent IEEE 488.2 response decoder and parsed back by the library's own parser",
-         "All 8/16-bit integers in decimal and #H/#Q/#B; boundary-directed 32/64-bit integers; all 2^32 f32 bit patterns (thorough; quick: every exponent x ~1050 mantissa patterns + all top-half patterns) and ~270k structured f64 patterns, bit-for-bit; NaN/infinity sentinels; bool; every string up to length 4/5 over quote/separator bytes; blocks of every length 0..120 and around 1000; &str, character, expression data; lists of 0..4 elements; derived-enum variants; every standard error and custom errors with and without extended text.",
+         "All 8/16-bit integers in decimal and #H/#Q/#B; boundary-directed 32/64-bit integers; all 2^32 f32 bit patterns (thorough; quick: every exponent x ~1050 mantissa patterns + all top-half patterns) and ~270k structured f64 patterns, bit-for-bit; NaN/infinity sentinels; bool; every string up to length 4/5 over quote/separator bytes; blocks of every length 0..120 and around 1000; &str, character, expression data; lists of 0..4 elements; derived-enum variants; every standard error and custom errors with and without extended text. Directed additions: block lengths at every digit-count boundary up to 10^7 / 10^8 bytes, custom descriptions with quotes attached to standard error numbers.",
          "Trusted: refmodel/respdec.rs (~250 lines from 488.2 8.7, self-checked), core::str::parse for decoding floats. Float text is judged against the NRf grammar (not the stricter talker form, see DESIGN 3.3); finite floats whose text equals a sentinel are excluded.",
          "DESIGN.md section 5 (C09)"),
  "C19": ("exploration",
@@ -93,7 +93,7 @@ CHECKS = {
          "DESIGN.md section 5 (C19)"),
  "C18": ("exploration",
          "exhaustive enumeration of suffix strings up to a length bound per quantity and storage type, all letter-case variants of accepted suffixes, against a rule-based multiplier x unit oracle",
-         "For each of the 14 supported quantities, with f32 and f64 storage: every suffix string up to length 3/4 over letters `.` `/` and up to length 4/6 over the SCPI unit vocabulary, every documented suffix, over-long and malformed suffixes; every accepted suffix in all 2^len case variants x 6 literals must scale by the SCPI factor (relative 2e-6 / 1e-12); every non-derivable suffix and every non-numeric element must be refused; bare numbers are taken in the base unit; Amplitude (PK/PP/RMS) and Db (DB*) forms are classified with the number unchanged.",
+         "For each of the 14 supported quantities, with f32 and f64 storage: every suffix string up to length 3/4 over letters `.` `/` and up to length 4/6 over the SCPI unit vocabulary, every documented suffix, over-long and malformed suffixes; every accepted suffix in all 2^len case variants x 6 literals must scale by the SCPI factor (relative 2e-6 / 1e-12); every non-derivable suffix and every non-numeric element must be refused; bare numbers are taken in the base unit; Amplitude (PK/PP/RMS) and Db (DB*) forms are classified with the number unchanged. Plus every one-character extension and several longer extensions of each documented suffix.",
          "Trusted: the rule oracle in c18.rs (multiplier table from IEEE 488.2 7.7.3 / SCPI-99, unit names and SI factors per quantity). Suffixes allowed by the rules but not implemented (e.g. GV) give no verdict; suffixes in the library's documented tables must be accepted.",
          "DESIGN.md section 5 (C18)"),
  "C17": ("exploration",
